@@ -179,7 +179,19 @@ Theorem C12_oracle_includes_results : forall pk ops o,
   check_C12 pk ops o = true -> check_C12_results ops o = true.
 Proof. exact oracle_includes_results. Qed.
 
-(* OPEN: C12_oracle_sound : forall pk gt ops, check_C12 pk ops (observe pk gt ops) = true.
+(* (8c) the UNCONDITIONAL form of full oracle soundness is FALSE: the driver's `settle` is
+   fuel-bounded (FUEL = 400 task turns), and a history that is not settled -- here a 1 us interval
+   asked to burst 1000 ticks in one turn -- leaves ticks to be handled at a later instant, which the
+   oracle's "not later than the first instant the runtime ran at/after the deadline" clause
+   rejects.  The open statement therefore carries an explicit `settled` side condition (every
+   settle of the scenario ends with an empty run queue, no enabled timer task and an idle target) *)
+Example C12_oracle_sound_unsettled_refuted :
+  exists ops, check_C12 false ops (observe false false ops) = false.
+Proof. exists [OMk KInterval 1000; OAdv ms; OProbe; OAdv ms; OProbe]. vm_compute. reflexivity. Qed.
+
+(* OPEN: C12_oracle_sound_settled : forall pk gt ops, settled_history pk gt ops ->
+     check_C12 pk ops (observe pk gt ops) = true.     (proved so far: the safety, result and
+     -- as theorem (2b) on the model -- abort-before-first-poll parts; see (8), (8b))
    GAP: the clauses outside check_C12_safety are not proved of all model runs:
    (i) "not later than the first instant the runtime ran at/after the k-th wheel deadline" and
    "nothing handled after an earlier abort" and "interval handle finished one period after the
